@@ -369,7 +369,7 @@ class C14(Check):
                    'a Python str holding lone surrogates is outside the model (Lean Char = Unicode scalar value)']
 
     def budget(self, tier, escalated):
-        n = 6000 if tier == 'quick' else 60000
+        n = 6000 if tier == 'quick' else 200000
         return n * (4 if escalated and tier == 'quick' else 1)
 
     def nontrivial(self, sample):
